@@ -1,5 +1,6 @@
 import WV.Proofs.C19_Steps
 import WV.Proofs.C19_Rl
+import WV.Proofs.C19_Xfer
 
 /-!
 C19 — property theorems.  `Str = List Nat` is a Python `str` as its code points ('-' = 45,
@@ -318,6 +319,41 @@ theorem finished_code_is_typed_text (isD : Nat → Bool) (s0 : St) (u : Bool) (e
   have hJ : J r := rlRun_J isD es _ (by intro np hnp; simp [committedNp] at hnp)
   exact rlFinish_delivers isD r r' text hJ h
 
+/-! ## the convenience entry points `xfer_util.send` / `xfer_util.receive` -/
+
+/-- a malformed `str` handed to `xfer_util.send/receive` — the empty string included — goes to `set_code` and
+    is refused there with `KeyFormatError` before anything happens (in every state of the wormhole);
+    a value that is neither `None` nor a `str` raises `TypeError`, equally before anything happens.
+    The proof needs the guard read from the source to be `code is None`. -/
+theorem xfer_malformed_rejected (isD : Nat → Bool) (s : St) :
+    (∀ c, (32 ∈ c ∨ firstPart c = [] ∨ ∃ x ∈ firstPart c, isD x = false) →
+        xferStartOn isD s (.str c) = (cleared s, some .keyFormat)) ∧
+    xferStartOn isD s (.str []) = (cleared s, some .keyFormat) ∧
+    xferStartOn isD s .other = (cleared s, some .typeError) := by
+  refine ⟨fun c h => ?_, ?_, xferStartOn_other isD s⟩
+  · rw [xferStartOn_str]; exact malformed_rejected isD s c h
+  · rw [xferStartOn_str]; exact malformed_rejected isD s [] (Or.inr (Or.inl rfl))
+
+/-- on the fresh, connected wormhole `xfer_util` creates, an allocation request goes out **iff** the caller passed
+    `None`; a well-formed code is delivered as it is, with no allocation -/
+theorem xfer_allocates_iff_none (isD : Nat → Bool) (code : CodeArg) :
+    Cmd.rcTxAllocate ∈ (xferStart isD code).1.out ↔ code = .none := by
+  cases code with
+  | none => simp [xferStart_none_out]
+  | other => simp [xferStart, xferStartOn_other, xferCreated_eq, init]
+  | str c =>
+    simp only [xferStart, xferStartOn_str, reduceCtorEq, iff_false]
+    rcases validateCode_cases isD c with hv | hv
+    · rw [setCode_fresh isD _ c hv (by simp [xferCreated_eq, init]) (by simp [xferCreated_eq, init, Code.init])]
+      simp [xferCreated_eq, init]
+    · rw [setCode_rejected isD _ c (by rw [hv]; exact fun h => nomatch h)]
+      simp [xferCreated_eq, init]
+
+/-- tie obligation: `Input._get_word_completions(prefix)` hands `prefix` itself to the wordlist (the model's
+    `inputOut1 … ._get_word_completions` calls `getCompletions arg 2`); `get_completions` splices each word onto
+    the string it is GIVEN, so `completion_extends` speaks about the typed text only because of this -/
+theorem input_hands_prefix_unchanged : Flags.input_word_completions_get_prefix_unchanged = true := by decide
+
 /-! ## non-vacuity: the hypotheses above are met by concrete, non-trivial runs of the model -/
 
 /-- "7-yucatan-aardvark": allocate two words, connect, server allocates nameplate 7, urandom gives ff 00 -/
@@ -362,5 +398,9 @@ example : (match (rlTab isNd (rlRun isNd rlInit [.env .inputCode, .tab [49, 50, 
 
 /-- "7-a" Return straight away is accepted (hypothesis of `finished_code_is_typed_text`) -/
 example : (rlFinish isNd (rlRun isNd ⟨init, none, false⟩ [.env .inputCode]) [55, 45, 97]).2 = none := by decide +kernel
+
+/-- `xfer_util.send(code="")`: refused, nothing emitted; `code=None`: an allocation request -/
+example : (xferStart isNd (.str [])).2 = some .keyFormat ∧ (xferStart isNd (.str [])).1.out = [] ∧
+    (xferStart isNd .none).2 = none ∧ (xferStart isNd .none).1.out = [.rcTxAllocate] := by decide +kernel
 
 end WV.Props.C19
